@@ -1,12 +1,21 @@
 (** DiskKVProofs: crash-consistency of the DiskKVModel protocol (property C16).
+
+    ASSUMPTION (pebble is not modelled, DESIGN.md C16): a store directory is an abstract store
+    ([CrashFS.store]).  Opening an existing durable store directory yields the state of its last synced
+    batch ([st_disk]; the empty store for a directory in which no batch was synced, however far its
+    creation by pebble.Open got); a synced batch is atomic (after a crash it is there entirely or not at
+    all: [fs_batch] replaces [st_disk] in one step).  pebble's WAL / manifest recovery is exercised by the
+    correspondence check on the strict MemFS, not proved.
+
     Structure (DESIGN.md H.3):
       - [WF]       invariant at API-call boundaries (volatile and durable view, process, name supplies);
       - [dur_ok]   what must hold of the durable view at EVERY intermediate point so that a crash leads
                    back to [WF] ([crash_wf]);
-      - [plan_ok]  per API call: every prefix of its step list satisfies [dur_ok] and denotes either the
+      - [plan_good] per API call: every prefix of its step list satisfies [dur_ok] and denotes either the
                    logical state before or after the call; the complete list re-establishes [WF] and denotes
                    the state after the call; no call panics;
-      - induction over arbitrary event lists ([run_inv]). *)
+      - [event_step] / [run_inv]: induction over arbitrary event lists (calls and crashed calls, among them
+                   crashed Opens = crashes during recovery). *)
 From Coq Require Import ZifyN ZifyNat ZifyBool.
 From Drummer.Model Require Import Base CrashFS DiskKVModel.
 
@@ -341,22 +350,146 @@ Proof.
     intros d1 Hd1. discriminate Hd1.
 Qed.
 
-(** frame rule for the durable view *)
-Lemma dur_frame s m :
-  f_rootT m = f_rootT s -> f_TN m = f_TN s ->
-  v_cur (f_dur m) = v_cur (f_dur s) ->
-  (forall d, In d (v_dbs (f_dur s)) -> In d (v_dbs (f_dur m))) ->
-  (forall i, v_cur (f_dur s) = Some i -> i_synced (f_ino m i) = i_synced (f_ino s i)) ->
-  (forall d, st_disk (f_st m d) = st_disk (f_st s d)) ->
-  (dur_wf ck s -> dur_wf ck m) /\ dur_state ck m = dur_state ck s.
+(* ------------------------------------------------------------------ explicit states *)
+Local Arguments fupd : simpl never.
+Local Arguments N.add : simpl never.
+Local Arguments N.eqb : simpl never.
+
+Ltac fup := repeat first [rewrite fupd_eq | rewrite fupd_neq by lia].
+
+(** durable view without a pointer: denotes the empty store *)
+Lemma mid_ok_nocur fr L1 m :
+  v_cur (f_dur m) = None -> ino_ok m (f_dur m) -> dbs_ok fr (f_dur m) -> mid_ok fr kv_init L1 m.
 Proof.
-  intros HT HN Hc Hdbs Hino Hst. split.
-  - unfold dur_wf, durable_N. rewrite HT, HN, Hc. intros Hwf Hn i Hi.
-    destruct (Hwf Hn i Hi) as (d & Hs & Hin). exists d. split; [|apply Hdbs, Hin].
-    now rewrite (Hino i Hi).
-  - unfold dur_state, dur_ptr, durable_N. rewrite HT, HN, Hc.
-    destruct (snd (f_rootT s) && snd (f_TN s)); [|reflexivity].
-    destruct (v_cur (f_dur s)) as [i|] eqn:Hi; [|reflexivity].
-    rewrite (Hino i eq_refl).
-    destruct (decode_ptr ck (i_synced (f_ino s i))); try reflexivity. apply Hst.
+  intros Hc Hi Hd. split.
+  - split; [|split; assumption]. intros _ i Hi'. rewrite Hc in Hi'. discriminate Hi'.
+  - left. unfold dur_state, dur_ptr. rewrite Hc. destruct (durable_N m); reflexivity.
 Qed.
+
+Lemma dur_state_nocur m : v_cur (f_dur m) = None -> dur_state ck m = kv_init.
+Proof. intros Hc. unfold dur_state, dur_ptr. rewrite Hc. destruct (durable_N m); reflexivity. Qed.
+
+(** durable view with a pointer *)
+Lemma mid_ok_cur fr L0 L1 m i d :
+  v_cur (f_dur m) = Some i -> i_synced (f_ino m i) = ptr d -> In d (v_dbs (f_dur m)) ->
+  ino_ok m (f_dur m) -> dbs_ok fr (f_dur m) -> durable_N m = true ->
+  (st_disk (f_st m d) = L0 \/ st_disk (f_st m d) = L1) ->
+  mid_ok fr L0 L1 m.
+Proof.
+  intros Hc Hs Hin Hi Hd HN Hst. split.
+  - split; [|split; assumption]. intros _ i' Hi'. rewrite Hc in Hi'. injection Hi' as <-.
+    exists d. split; assumption.
+  - unfold dur_state, dur_ptr. rewrite HN, Hc, Hs, decode_ptr_bytes. exact Hst.
+Qed.
+
+Lemma dur_state_cur m i d :
+  durable_N m = true -> v_cur (f_dur m) = Some i -> i_synced (f_ino m i) = ptr d ->
+  dur_state ck m = st_disk (f_st m d).
+Proof. intros HN Hc Hs. unfold dur_state, dur_ptr. now rewrite HN, Hc, Hs, decode_ptr_bytes. Qed.
+
+(** states that differ in the volatile entries of the node directory only *)
+Definition same_dur (s m : fs) : Prop :=
+  f_rootT m = f_rootT s /\ f_TN m = f_TN s /\ f_dur m = f_dur s /\ f_ino m = f_ino s /\
+  f_next m = f_next s /\ f_st m = f_st s.
+
+Lemma same_dur_refl s : same_dur s s.
+Proof. repeat split. Qed.
+
+Lemma same_dur_mid fr L0 L1 s m : same_dur s m -> mid_ok fr L0 L1 s -> mid_ok fr L0 L1 m.
+Proof.
+  destruct s as [rT tN vol dur ino nxt st], m as [rT' tN' vol' dur' ino' nxt' st'].
+  unfold same_dur. cbn. intros (-> & -> & -> & -> & -> & ->) H. exact H.
+Qed.
+
+Lemma same_dur_state s m : same_dur s m -> dur_state ck m = dur_state ck s.
+Proof.
+  destruct s as [rT tN vol dur ino nxt st], m as [rT' tN' vol' dur' ino' nxt' st'].
+  unfold same_dur. cbn. intros (-> & -> & -> & -> & -> & ->). reflexivity.
+Qed.
+
+Definition norm (s : fs) : fs :=
+  mkFS (true, true) (true, true) (f_vol s) (f_dur s) (f_ino s) (f_next s) (f_st s).
+
+(** computation on explicit file-system records *)
+Ltac cfs :=
+  cbv beta iota zeta delta
+    [plan_node_dir exists_T exists_N durable_N norm exec fold_left all_prefixes exec_step
+     fs_sync_T fs_mkdirN fs_mkdirT fs_sync_root fs_sync_N fs_create fs_write fs_fsync fs_rename
+     fs_remove_file fs_remove_db fs_batch set_vol set_ino set_st v_file v_set_file v_set_dbs
+     f_rootT f_TN fst snd andb negb f_vol f_dur f_ino f_next f_st v_cur v_upd v_dbs
+     save_ptr replace_ptr view0].
+
+Ltac splits := repeat match goal with |- _ /\ _ => split end.
+
+(** ---- createNodeDataDir *)
+Lemma node_dir_ok y :
+  WF y ->
+  all_prefixes (mid_ok (s_fresh y + 1) (dur_state ck (s_fs y)) (dur_state ck (s_fs y)))
+               (plan_node_dir (s_fs y)) (s_fs y) /\
+  exec (plan_node_dir (s_fs y)) (s_fs y) = norm (s_fs y) /\
+  dur_state ck (norm (s_fs y)) = dur_state ck (s_fs y) /\
+  (exists_N (s_fs y) = false -> f_vol (s_fs y) = view0 /\ f_dur (s_fs y) = view0).
+Proof.
+  intros H. pose proof (mid_ok_start y (dur_state ck (s_fs y)) H) as H0.
+  pose proof (wB _ H) as HB.
+  destruct H as [a1 a2 a3 _ _ _ _ _ _ _ _ _].
+  destruct y as [[[a b] [c d] vol dur ino nxt st] p fr]. cbn in *. subst b d.
+  destruct a, c; try (specialize (a3 eq_refl); discriminate a3).
+  - (* node directory exists *)
+    cfs. cbn [app]. cfs.
+    split; [split; [exact H0|split; [exact H0|exact I]]|].
+    split; [reflexivity|split; [reflexivity|intros Hf; discriminate Hf]].
+  - (* T exists, N does not *)
+    destruct (HB eq_refl) as [-> ->]. clear H0 HB.
+    cfs. cbn [app]. cfs. rewrite !dur_state_nocur by reflexivity.
+    split.
+    + splits; try exact I; (apply mid_ok_nocur; [reflexivity|split; intros i Hi; discriminate Hi|constructor]).
+    + split; [reflexivity|split; [reflexivity|intros _; split; reflexivity]].
+  - (* neither exists *)
+    destruct (HB eq_refl) as [-> ->]. clear H0 HB.
+    cfs. cbn [app]. cfs. rewrite !dur_state_nocur by reflexivity.
+    split.
+    + splits; try exact I; (apply mid_ok_nocur; [reflexivity|split; intros i Hi; discriminate Hi|constructor]).
+    + split; [reflexivity|split; [reflexivity|intros _; split; reflexivity]].
+Qed.
+
+(** obligations about inode numbers and directory names on explicit views *)
+Ltac ino_tac :=
+  split; intros ?i ?Hi; cbn in *;
+  first [ discriminate
+        | match goal with H : Some _ = Some _ |- _ => injection H as <-; lia end
+        | match goal with Hb : forall j, ?o = Some j -> j < _, H : ?o = Some _ |- _ => specialize (Hb _ H); lia end ].
+
+(** ---- first Open: create the store directory, make it durable, publish the pointer, open the store *)
+Lemma first_run_ok (vu du : option N) (vd dd : list N) ino nxt st f fr L1 :
+  (forall i, vu = Some i -> i < nxt) -> (forall i, du = Some i -> i < nxt) ->
+  Forall (fun d => d < f) vd -> Forall (fun d => d < f) dd -> f < fr ->
+  let s1 := mkFS (true, true) (true, true) (mkView None vu vd) (mkView None du dd) ino nxt st in
+  let steps := [SMkdirDb f; SSyncN] ++ save_ptr ck f ++ replace_ptr ++ [SStOpen f] in
+  all_prefixes (mid_ok fr kv_init L1) steps s1 /\
+  exists ino',
+    exec steps s1 = mkFS (true, true) (true, true) (mkView (Some nxt) None (f :: vd))
+                         (mkView (Some nxt) None (f :: vd)) ino' (nxt + 1) (fupd st f store0) /\
+    i_data (ino' nxt) = ptr f /\ i_synced (ino' nxt) = ptr f.
+Proof.
+  intros Hvu Hdu Hvd Hdd Hf s1 steps.
+  assert (Hmem : memN f vd = false) by (apply memN_false_lt; exact Hvd).
+  assert (Hdd' : Forall (fun d => d < fr) dd) by (eapply Forall_impl; [|exact Hdd]; cbn beta; intros; lia).
+  assert (Hvd' : Forall (fun d => d < fr) (f :: vd)).
+  { constructor; [exact Hf|]. eapply Forall_impl; [|exact Hvd]. cbn beta; intros; lia. }
+  assert (E1 : exec_step (SMkdirDb f) s1 =
+               mkFS (true, true) (true, true) (mkView None vu (f :: vd)) (mkView None du dd) ino nxt (fupd st f store0)).
+  { unfold s1. cbn [exec_step]. unfold fs_mkdir_db. cbn [f_vol v_dbs]. rewrite Hmem. reflexivity. }
+  unfold steps. cbv [save_ptr replace_ptr]. cbn [app].
+  split.
+  - cbn [all_prefixes]. rewrite E1. unfold s1. cfs.
+    splits; try exact I.
+    all: try (apply mid_ok_nocur; [reflexivity|ino_tac|cbn; assumption]).
+    all: apply (mid_ok_cur fr kv_init L1 _ nxt f);
+      [reflexivity|cbn; fup; reflexivity|left; reflexivity|ino_tac|cbn; assumption|reflexivity
+      |left; cbn; fup; reflexivity].
+  - unfold exec. cbn [fold_left]. rewrite E1. cfs.
+    eexists. split; [reflexivity|]. cbn. fup. cbn. fup. split; reflexivity.
+Qed.
+
+End Proofs.
